@@ -113,7 +113,7 @@ def assign_devices(tensors: List[torch.Tensor], num_gpus_to_use: int) -> None:
 
 
 def extended_mps_factors(
-    mps_factors: list[torch.Tensor], where: torch.Tensor
+    mps_factors: list[torch.Tensor], where: torch.Tensor, dim: int = 2
 ) -> list[torch.Tensor]:
     """
     Given a valid list of MPS factors, accounting for qubits marked as `True` in `where`,
@@ -133,7 +133,7 @@ def extended_mps_factors(
             factor_index += 1
         elif factor_index == len(mps_factors):
             factor = torch.zeros(
-                bond_dimension, 2, 1, dtype=torch.complex128
+                bond_dimension, dim, 1, dtype=torch.complex128
             )  # FIXME: assign device
             factor[:, 0, :] = torch.eye(bond_dimension, 1)
             bond_dimension = 1
@@ -141,7 +141,7 @@ def extended_mps_factors(
         else:
             factor = torch.zeros(
                 bond_dimension,
-                2,
+                dim,
                 bond_dimension,
                 dtype=torch.complex128,  # FIXME: assign device
             )
@@ -151,7 +151,7 @@ def extended_mps_factors(
 
 
 def extended_mpo_factors(
-    mpo_factors: list[torch.Tensor], where: torch.Tensor
+    mpo_factors: list[torch.Tensor], where: torch.Tensor, dim: int = 2
 ) -> list[torch.Tensor]:
     """
     Given a valid list of MPO factors, accounting for qubits marked as `True` in `where`,
@@ -170,17 +170,17 @@ def extended_mpo_factors(
             bond_dimension = mpo_factors[factor_index].shape[3]
             factor_index += 1
         elif factor_index == len(mpo_factors):
-            factor = torch.zeros(bond_dimension, 2, 2, 1, dtype=torch.complex128)
-            factor[:, 0, 0, :] = torch.eye(bond_dimension, 1)
-            factor[:, 1, 1, :] = torch.eye(bond_dimension, 1)
+            factor = torch.zeros(bond_dimension, dim, dim, 1, dtype=torch.complex128)
+            for level in range(dim):
+                factor[:, level, level, :] = torch.eye(bond_dimension, 1)
             bond_dimension = 1
             result.append(factor)
         else:
             factor = torch.zeros(
-                bond_dimension, 2, 2, bond_dimension, dtype=torch.complex128
+                bond_dimension, dim, dim, bond_dimension, dtype=torch.complex128
             )
-            factor[:, 0, 0, :] = torch.eye(bond_dimension, bond_dimension)
-            factor[:, 1, 1, :] = torch.eye(bond_dimension, bond_dimension)
+            for level in range(dim):
+                factor[:, level, level, :] = torch.eye(bond_dimension, bond_dimension)
             result.append(factor)
     return result
 
